@@ -97,14 +97,18 @@ const maxPref64Lifetime = 8191 * 8 * time.Second
 func NewPREF64(prefix netip.Prefix, maxInterval time.Duration) *PREF64 {
 	// Calculate the scaled lifetime using MaxRtrAdvInterval.
 	// See https://datatracker.ietf.org/doc/html/rfc8781#section-4.1-2
+	//
+	// The interval is scaled as a duration so that a fractional interval such
+	// as 5.5s is not truncated to whole seconds before it is multiplied.
 	lifetime := maxPref64Lifetime
-	if int(maxInterval.Seconds())*3 < int(lifetime.Seconds()) {
-		lifetimeSeconds := int(maxInterval.Seconds()) * 3
-		if r := int(lifetimeSeconds) % 8; r > 0 {
-			lifetimeSeconds += 8 - r
+	if scaled := 3 * maxInterval; scaled < lifetime {
+		// The lifetime is advertised in units of 8 seconds; round up.
+		const unit = 8 * time.Second
+		if r := scaled % unit; r > 0 {
+			scaled += unit - r
 		}
 
-		lifetime = time.Duration(lifetimeSeconds) * time.Second
+		lifetime = scaled
 	}
 
 	return &PREF64{
